@@ -500,6 +500,33 @@ InvRecord World::RunInvocation(const InvPlan& plan) {
     k.MkFifo("js.fifo", std::string((size_t)plan.js_tokens, '+'));
     sp.env["MAKEFLAGS"] = " -j" + std::to_string(plan.js_tokens + 1) + " --jobserver-auth=fifo:js.fifo";
     r.tokens_before = plan.js_tokens;
+    // other clients of the same pool: take a token when one is there, give it back later
+    peer_holding = 0;
+    World* selfw = this;
+    for (int pi = 0; pi < plan.js_peers; pi++) {
+      int cycles = 1 + (int)tape->Choice(plan.stream, 4);
+      int64_t t = (int64_t)tape->Choice(plan.stream, 6000) * 1000;
+      for (int c = 0; c < cycles; c++) {
+        int64_t hold = (1 + (int64_t)tape->Choice(plan.stream, 6000)) * 1000;
+        Actor take;
+        take.at_ns = t;
+        take.fn = [selfw, hold](Kernel& k2) {
+          Inode* f = k2.fs.Find(k2.Abs("js.fifo"));
+          if (!f || f->data.empty()) return;
+          char tok = f->data[0];
+          f->data.erase(0, 1);
+          selfw->peer_holding++;
+          selfw->stats->n["peer_took_token"]++;
+          k2.AddActor(hold, [selfw, tok](Kernel& k3) {
+            Inode* g = k3.fs.Find(k3.Abs("js.fifo"));
+            if (g) g->data.push_back(tok);
+            selfw->peer_holding--;
+          });
+        };
+        k.start_actors.push_back(take);
+        t += hold + (int64_t)tape->Choice(plan.stream, 3000) * 1000;
+      }
+    }
   }
   std::string lb, ld;
   bool hb = k.ReadFile(sc.LogDir() + ".ninja_log", &lb), hd = k.ReadFile(sc.LogDir() + ".ninja_deps", &ld);
@@ -538,6 +565,11 @@ InvRecord World::RunInvocation(const InvPlan& plan) {
       }
     for (auto& x : rp->spawns) if (!x.depfile.empty() && self->k.Exists(x.depfile)) rp->outs_at_exit[x.depfile] = std::make_pair(std::string(), self->k.Mtime(x.depfile));
     rp->lock_at_exit = self->k.Exists(self->sc.LogDir() + ".ninja_lock");
+    if (rp->plan.jobserver) {
+      // "by the time ninja exits": the pool plus what other clients hold, at this instant
+      Inode* f = self->k.fs.Find(self->k.Abs("js.fifo"));
+      rp->tokens_after = f ? (int)f->data.size() + self->peer_holding : -1;
+    }
     for (auto& kv : self->live) rp->alive_at_exit.insert(kv.first);
   };
   r.res = k.RunNinja(sp, this);
@@ -571,10 +603,7 @@ InvRecord World::RunInvocation(const InvPlan& plan) {
   hb = k.ReadFile(sc.LogDir() + ".ninja_log", &lb); hd = k.ReadFile(sc.LogDir() + ".ninja_deps", &ld);
   r.log_after = FoldBuildLog(hb ? lb : "", hb);
   r.deps_after = FoldDepsLog(hd ? ld : "", hd);
-  if (plan.jobserver) {
-    Inode* f = k.fs.Find(k.Abs("js.fifo"));
-    r.tokens_after = f ? (int)f->data.size() : -1;
-  }
+
   static const char* kRealFaults[] = {"crash", "torn_write", "io_error_read", "io_error_write", "io_error_stat",
                                       "io_error_fopen", "io_error_mkdir", "io_error_remove", "io_error_rename",
                                       "io_error_truncate", "io_error_chown", "io_error_open", "io_error_pipe",
